@@ -51,6 +51,8 @@ func (r *Rng) Chance(pct int) bool { return r.Intn(100) < pct }
 
 func (r *Rng) Pick(xs ...int) int { return xs[r.Intn(len(xs))] }
 
+func (r *Rng) PickS(xs ...string) string { return xs[r.Intn(len(xs))] }
+
 func (r *Rng) PickU(xs ...uint64) uint64 { return xs[r.Intn(len(xs))] }
 
 func (r *Rng) Bytes(n int) []byte {
